@@ -431,33 +431,39 @@ def collapsed_round_trip(h):
     h.check('truth-value-form', 'ok', ok=(h.call(h.getattr(s, 'Collapsed')) is True))
 
 
-@contract('C11/constraints.impose_measure', ['C11', 'C16'], 'mystic/constraints.py::impose_measure.dec.func', native=False)
+@contract('C11/constraints.impose_measure', ['C11', 'C16'], 'mystic/constraints.py::impose_measure.dec.func', samples=120)
 def impose_measure(h):
     """the constraint Collapse() builds for CollapsePosition / CollapseWeight reports: after it, EVERY collapsed weight is
     exactly zero and EVERY collapsed pair of positions coincides -- also when a weight collapse and a position collapse
     name the same point (reported in the same generation) --, the total weight of the measure is unchanged and the other
     measure is untouched (one 3-point and one 2-point measure, positive weights, all values)"""
-    if not h.is_sym():
-        h.unsupported('symbolic only')
     case = h.choice('collapses', ['positions-only', 'weights-only', 'both-on-the-same-point', 'both-on-different-points'])
     pos = {0: [(0, 1)]} if case != 'weights-only' else {}
     wts = {} if case == 'positions-only' else ({0: [0]} if case != 'both-on-different-points' else {0: [2]})
-    w = h.vec('w', 3)
-    x = h.vec('x', 3)
-    w2, x2 = h.vec('v', 2), h.vec('y', 2)
-    h.assume('w[0] > 0 and w[1] > 0 and w[2] > 0', w=w)
-    params = h.clist(list(h.st.heap[w]) + list(h.st.heap[x]) + list(h.st.heap[w2]) + list(h.st.heap[x2]))
+    w = [h.real('w%d' % i) for i in range(3)]
+    x = [h.real('x%d' % i) for i in range(3)]
+    w2 = [h.real('v%d' % i) for i in range(2)]
+    x2 = [h.real('y%d' % i) for i in range(2)]
+    for wi in w:
+        h.assume('wi > 0', wi=wi)
+    if not h.is_sym():
+        for wi in w:
+            h.assume('wi > 0.01', wi=wi)
+    params = h.clist(w + x + w2 + x2)
     f = h.fn('F', ret='real', log='calls')
-    mk = lambda d: h.st.alloc('dict', {k_: h.st.alloc('set', list(v_)) for k_, v_ in d.items()})       # noqa: E731
+    if h.is_sym():
+        mk = lambda d: h.st.alloc('dict', {k_: h.st.alloc('set', list(v_)) for k_, v_ in d.items()})       # noqa: E731
+    else:
+        mk = lambda d: {k_: set(v_) for k_, v_ in d.items()}                                               # noqa: E731
     func = h.call(h.call(h.get('mystic/constraints.py::impose_measure'), (3, 2), mk(pos), mk(wts)), f)
     h.call(func, params)
     calls = h.log('calls')
     h.check('decorated-function-called-once-with-a-vector-of-the-same-length', 'len(calls) == 1 and len(calls[0][0]) == 10', calls=calls)
     r = calls[0][0]
-    e = dict(r=r, w=w, x=x, w2=w2, x2=x2)
+    e = dict(r=r, w0=w[0], w1=w[1], w2=w[2], v0=w2[0], v1=w2[1], y0=x2[0], y1=x2[1])
     for i in wts.get(0, []):
         h.check('collapsed-weights-are-exactly-zero', 'r[%d] == 0' % i, **e)
     for (i, j) in pos.get(0, []):
         h.check('collapsed-positions-coincide', 'r[%d] == r[%d]' % (3 + i, 3 + j), **e)
-    h.check('total-weight-of-the-measure-unchanged', 'r[0] + r[1] + r[2] == w[0] + w[1] + w[2]', **e)
-    h.check('the-other-measure-untouched', 'r[6] == w2[0] and r[7] == w2[1] and r[8] == x2[0] and r[9] == x2[1]', **e)
+    h.check('total-weight-of-the-measure-unchanged', 'r[0] + r[1] + r[2] == w0 + w1 + w2', **e)
+    h.check('the-other-measure-untouched', 'r[6] == v0 and r[7] == v1 and r[8] == y0 and r[9] == y1', **e)
